@@ -636,7 +636,7 @@ func run(c *vf.Ctx) {
 		for _, k := range perm[:3] {
 			forms = append(forms, nestForms[k])
 		}
-		sweep = []int{-12, -6, -3, -1, 1}
+		sweep = []int{-12, -3, -1, 1}
 	} else {
 		for d := -14; d <= 4; d++ {
 			sweep = append(sweep, d)
@@ -654,13 +654,14 @@ func run(c *vf.Ctx) {
 	oldGC := debug.SetGCPercent(-1)
 	oldLimit := debug.SetMemoryLimit(5 << 30)
 	defer func() { debug.SetGCPercent(oldGC); debug.SetMemoryLimit(oldLimit) }()
-	c.Parallel(len(deep), 6, 7<<32, func(i int, r *rand.Rand) {
+	c.Parallel(len(deep), c.N(4, 6), 7<<32, func(i int, r *rand.Rand) {
 		cs := deep[i]
 		cs.src = []byte(formByName(cs.nest.Form).expand(cs.nest.Depth))
 		cs.idx = i
 		evaluate(c, &cs)
 	})
 	c.Count("phase_deep_nesting_cases", len(deep))
+	c.Count("deep_nesting_within_limit", len(deep)-int(c.Counter("nesting_limit_hit")))
 
 	c.Assume("reference = verifharness/ref/goparser124: /repo's fork with gnovm/pkg/parser/gno.patch reversed at generation time (Go 1.24 go/parser) + a nil-by-default observation hook; if gno.patch or the upstream base of the fork changes, regenerate with ref/regen.sh (evidence key fork_inputs_unchanged_since_reference_generation tells)")
 	c.Assume("Mode flag Trace is not exercised (it only prints productions to stdout); fork and reference share the toolchain's go/scanner, go/ast and go/token")
@@ -672,7 +673,8 @@ func run(c *vf.Ctx) {
 	c.RequireCounter("cases_with_resolved_objects", 1000)
 	c.RequireCounter("bailout_after_10_errors", 20)
 	c.RequireCounter("more_than_11_errors_allerrors", 20)
-	c.RequireCounter("nesting_limit_hit", 5)
+	c.RequireCounter("nesting_limit_hit", int64(c.N(3, 100)))
+	c.RequireCounter("deep_nesting_within_limit", int64(c.N(3, 100)))
 	c.RequireCounter("scope_limit_hit", 20)
 	c.RequireCounter("mode_exactly_gnovm", 1000)
 	c.RequireCounter("callback_full_stream_cases", 2000)
